@@ -238,3 +238,56 @@ def _construct_txout(ip, args, kw):
 
 REG.rec_construct[TxIn] = _construct_txin
 REG.rec_construct[TxOut] = _construct_txout
+
+
+# ---------------------------------------------------------------- parse(stream(x)) == x for one output / input
+import io as _io
+from contracts.c07_prims import cs_roundtrip
+
+
+def roundtrip_txout(coin_value, script):
+    f = _io.BytesIO()
+    TxOut(coin_value, script).stream(f)
+    return TxOut.parse(_io.BytesIO(f.getvalue()))
+
+
+def roundtrip_txin(previous_hash, previous_index, script, sequence):
+    f = _io.BytesIO()
+    TxIn(previous_hash, previous_index, script, sequence).stream(f)
+    return TxIn.parse(_io.BytesIO(f.getvalue()))
+
+
+@contract("contracts.c07_tx:roundtrip_txout")
+class c_roundtrip_txout:
+    """through the contracts of TxOut.stream and TxOut.parse and the compact-size round-trip lemma"""
+    props = ["C07"]
+    sig = dict(coin_value=Int(0, 2 ** 64 - 1), script=Bytes(sample_max=80, interesting=[b"", bytes(252), bytes(253)]))
+    options = {'reveal': ['ser_txout', 'varstr']}
+
+    def requires(coin_value, script):
+        return len(script) < 2 ** 32
+
+    def hints(coin_value, script):
+        cs_roundtrip(len(script), le(coin_value, 8), script)
+
+    def ensures_same(coin_value, script, result):
+        return (result.coin_value == coin_value, result.script == script)
+
+
+@contract("contracts.c07_tx:roundtrip_txin")
+class c_roundtrip_txin:
+    props = ["C07"]
+    tier = 'thorough'       # over a minute of solver time (slices at symbolic offsets)
+    sig = dict(previous_hash=Bytes(n=32), previous_index=Int(0, 2 ** 32 - 1), script=Bytes(sample_max=80, interesting=[b"", bytes(252), bytes(253)]),
+               sequence=Int(0, 2 ** 32 - 1))
+    options = {'reveal': ['ser_txin', 'varstr']}
+
+    def requires(previous_hash, previous_index, script, sequence):
+        return len(script) < 2 ** 32
+
+    def hints(previous_hash, previous_index, script, sequence):
+        cs_roundtrip(len(script), previous_hash + le(previous_index, 4), script + le(sequence, 4))
+
+    def ensures_same(previous_hash, previous_index, script, sequence, result):
+        return (result.previous_hash == previous_hash, result.previous_index == previous_index, result.script == script,
+                result.sequence == sequence, len(result.witness) == 0)
